@@ -59,6 +59,7 @@ impl Property for C14 {
             "owner_terminated_by_failure_resource_closed",
             "handle_in_mailbox_of_finished_process_closed",
             "ownership_returned_to_earlier_owner",
+            "transfer_below_closure_top_level",
             "process_owning_two_resources_closed",
         ]
     }
@@ -70,7 +71,7 @@ impl Property for C14 {
         let neps = 1 + rng.usize(4);
         let mut kinds = Vec::new();
         for k in 0..neps {
-            let kind = rng.below(11);
+            let kind = rng.below(14);
             h.u64(kind);
             kinds.push(kind);
             let aw = |rng: &mut Rng, awaits: &mut Vec<String>, name: String| {
@@ -150,6 +151,35 @@ impl Property for C14 {
                     lines.push(format!("b{k} = \"/e{k}\" .0 @pp"));
                     aw(rng, &mut awaits, format!("b{k}"));
                 }
+                11 => {
+                    // closure -> tuple -> handle, sent in a message
+                    lines.push(format!("q{k} = @keepfn"));
+                    lines.push(format!("f{k} = [\"/e{k}\" .0, 577, 420] __file_open__"));
+                    lines.push(format!("w{k} = [f{k}, 0, 0x0102030405] __file_write__"));
+                    lines.push(format!("sp{k} = [f{k}, 9]"));
+                    lines.push(format!("h{k} = #{{ sp{k} =[q, n], d = [q, 0, n] __file_read__, d __binary_length__ }}"));
+                    lines.push(format!("&h{k} q{k}"));
+                    aw(rng, &mut awaits, format!("q{k}"));
+                }
+                12 => {
+                    // closure -> closure -> handle, sent in a message
+                    lines.push(format!("q{k} = @keepfn"));
+                    lines.push(format!("f{k} = [\"/e{k}\" .0, 577, 420] __file_open__"));
+                    lines.push(format!("w{k} = [f{k}, 0, 0x0102030405] __file_write__"));
+                    lines.push(format!("in{k} = #{{ d = [f{k}, 0, 9] __file_read__, d __binary_length__ }}"));
+                    lines.push(format!("h{k} = #{{ in{k} }}"));
+                    lines.push(format!("&h{k} q{k}"));
+                    aw(rng, &mut awaits, format!("q{k}"));
+                }
+                13 => {
+                    // closure -> tuple -> handle, as a spawn capture
+                    lines.push(format!("f{k} = [\"/e{k}\" .0, 577, 420] __file_open__"));
+                    lines.push(format!("w{k} = [f{k}, 0, 0x010203] __file_write__"));
+                    lines.push(format!("sp{k} = [f{k}, 9]"));
+                    lines.push(format!("h{k} = #{{ sp{k} =[q, n], d = [q, 0, n] __file_read__, d __binary_length__ }}"));
+                    lines.push(format!("c{k} = @{{ h{k} }}"));
+                    aw(rng, &mut awaits, format!("c{k}"));
+                }
                 _ => {
                     // spawn with a handle in a capture AND a handle as the argument
                     lines.push(format!("f{k} = [\"/e{k}x\" .0, 577, 420] __file_open__"));
@@ -167,7 +197,7 @@ impl Property for C14 {
         for (i, a) in awaits.iter().enumerate() {
             lines.push(format!("r{i} = ! [{a}, 400]"));
         }
-        if use_after && let Some((k, _)) = kinds.iter().enumerate().find(|(_, kd)| matches!(**kd, 2 | 3 | 6 | 7 | 10)) {
+        if use_after && let Some((k, _)) = kinds.iter().enumerate().find(|(_, kd)| matches!(**kd, 2 | 3 | 6 | 7 | 10 | 11 | 12 | 13)) {
             lines.push(format!("z = [f{k}, 0, 1] __file_read__"));
             h.u64(0xdead);
         }
@@ -235,17 +265,17 @@ pub struct ResMonitor {
 }
 
 fn resources_in(v: &Value, depth: u8, out: &mut Vec<(usize, u8)>) {
-    // depth marker: 0 bare, 1 inside tuple, 2 inside closure
+    // depth marker: 0 bare, 1 inside tuple, 2 directly captured by a closure, 3 deeper below a closure
     match v {
         Value::Resource(r, _) => out.push((*r, depth)),
         Value::Tuple(_, fs) => {
             for f in fs.iter() {
-                resources_in(f, depth.max(1), out);
+                resources_in(f, if depth >= 2 { 3 } else { depth.max(1) }, out);
             }
         }
         Value::Function(_, caps) => {
             for c in caps.iter() {
-                resources_in(c, 2, out);
+                resources_in(c, if depth >= 2 { 3 } else { 2 }, out);
             }
         }
         _ => {}
@@ -334,11 +364,15 @@ impl ResMonitor {
             let _ = world;
             if how == "spawn" {
                 self.probe("transfer_by_spawn");
+                if depth >= 3 {
+                    self.probe("transfer_below_closure_top_level");
+                }
             } else {
                 match depth {
                     0 => self.probe("transfer_by_message_bare"),
                     1 => self.probe("transfer_by_message_nested"),
-                    _ => self.probe("transfer_by_message_closure"),
+                    2 => self.probe("transfer_by_message_closure"),
+                    _ => self.probe("transfer_below_closure_top_level"),
                 }
             }
         }
